@@ -155,6 +155,43 @@ def proofHeur (exhaustive : Bool) (nspare : Nat) : Heur :=
     gen := proofGen,
     fuel := 12 }
 
+/-! ### matching a rule's left side against a leaf (heuristic; the instance is re-computed by `PC.ruleInstance`) -/
+
+/-- match the fields of a pattern node against the fields of a term node: same structure, slots related by `σ` -/
+def matchField : Field → Field → List (Nat × Nat) → Option (List (Nat × Nat))
+  | .slot a, .slot b, σ =>
+    (match σ.find? (·.1 == a) with
+     | some p => if p.2 == b then some σ else none
+     | none => some ((a, b) :: σ))
+  | .app _, .app _, σ => some σ
+  | .lit u, .lit v, σ => if u == v then some σ else none
+  | .bind a f, .bind b g, σ =>
+    (match σ.find? (·.1 == a) with
+     | some p => if p.2 == b then matchField f g σ else none
+     | none => matchField f g ((a, b) :: σ))
+  | _, _, _ => none
+
+def matchFields : List Field → List Field → List (Nat × Nat) → Option (List (Nat × Nat))
+  | [], [], σ => some σ
+  | f :: fs, g :: gs, σ => (matchField f g σ).bind (matchFields fs gs)
+  | _, _, _ => none
+
+/-- heuristic matcher (untrusted): pattern (named, with pvar leaves) against a named term -/
+partial def matchT (p t : Term) (acc : List (String × Term) × List (Nat × Nat)) : Option (List (String × Term) × List (Nat × Nat)) :=
+  match pvarName p with
+  | some a =>
+    (match acc.1.find? (·.1 == a) with
+     | some q => if Term.beq q.2 t then some acc else some acc   -- repeated variable: the instance check decides
+     | none => some ((a, t) :: acc.1, acc.2))
+  | none =>
+    match p, t with
+    | .mk n cs, .mk m ds =>
+      if n.v != m.v || cs.length != ds.length then none else
+      match matchFields n.fields m.fields acc.2 with
+      | none => none
+      | some σ => (cs.zip ds).foldl (fun a (c, d) => a.bind (matchT c d)) (some (acc.1, σ))
+
+
 /-! ### parsing -/
 
 def parseEqn (s : String) : Term × Term :=
@@ -184,26 +221,69 @@ def parseAsserted (s : String) : Option Asserted :=
 
 def items (s : String) : List String := if s = "" then [] else s.splitOn "#"
 
-/-- `expl <ops>|<asserted>|<nodes>|<roots>` → `nodes:ok|roots:111`, or `nodes:bad<i>` / `nodes:und<i>` for the first
-node that is not accepted (`und`: the universe was cut at the size cap, so the rejection means nothing) -/
+/-- the named (not yet locally nameless) sides of a node's claim -/
+def parseEqnNamed (s : String) : Term × Term :=
+  match s.splitOn "~" with
+  | [a, b] => (parseTerm a, parseTerm b)
+  | _ => (parseTerm "", parseTerm "")
+
+def parseRuleDef (s : String) : Option RuleDef :=
+  match s.splitOn "=" with
+  | [nm, eqn] => let (l, r) := parseEqnNamed eqn; some { name := nm, lhs := l, rhs := r }
+  | _ => none
+
+/-- `expl <ops>|<asserted>|<nodes>|<roots>[|<rules>]` → `nodes:ok|roots:111|slow:k|rl:a/b`, or `nodes:bad<i>` / `nodes:und<i>`
+for the first node that is not accepted (`und`: the universe was cut at the size cap, or the node is a leaf of a rule
+application that is not a literal instance of the rule — see DESIGN §9.3 C07 — so the rejection means nothing).
+`rl:a/b` = leaves of rule applications accepted / not decided. -/
 def explRun (body : String) : String :=
-  match body.splitOn "|" with
-  | [_, aS, nS, rS] =>
-    let A := (items aS).filterMap parseAsserted
-    let nodesO := (items nS).map parsePNode
-    if nodesO.any (·.isNone) || A.length != (items aS).length then "bad-case" else
-    let nodes := nodesO.filterMap id
+  let secs := body.splitOn "|"
+  match secs with
+  | _ :: aS :: nS :: rS :: restSecs =>
+    let rules := (items (restSecs.headD "")).filterMap parseRuleDef
+    let A0 := (items aS).filterMap parseAsserted
+    let nodeStrs := items nS
+    let nodesO := nodeStrs.map parsePNode
+    if nodesO.any (·.isNone) || A0.length != (items aS).length then "bad-case" else
+    let nodes0 := nodesO.filterMap id
+    -- leaves of rule applications: the rule instance is computed by `PC.ruleInstance` from a matched substitution and
+    -- becomes an asserted equation with a label of its own
+    let named := nodeStrs.map fun ns => match ns.splitOn ":" with | [_, _, _, eqn] => parseEqnNamed eqn | _ => parseEqnNamed ""
+    let step := fun (acc : List PNode × List Asserted × List Nat × Nat) (x : PNode × (Term × Term)) =>
+      let (out, A, ruleLeaves, k) := acc
+      let (n, nm) := x
+      match n.rule, n.label with
+      | .explicit, some lb =>
+        (match rules.find? (·.name == lb) with
+         | some rd =>
+           let lb' := s!"{lb}#{k}"
+           let inst := (matchT rd.lhs nm.1 ([], [])).bind fun (θ, σ) => ruleInstance rd θ σ
+           -- with all slot names erased the leaf must still be an instance of the rule: otherwise it is no instance in any reading
+           let z := fun (t : Term) => renameAllT (fun _ => 0) t
+           let skelOK := match matchT (z rd.lhs) (z nm.1) ([], []) with
+             | some (θ0, _) => Term.beq (instT θ0 (z rd.lhs)) (z nm.1) && Term.beq (instT θ0 (z rd.rhs)) (z nm.2)
+             | none => false
+           let ruleLeaves := if skelOK then k :: ruleLeaves else ruleLeaves
+           (match inst with
+            | some (il, ir) => (out ++ [{ n with label := some lb' }], A ++ [{ label := lb', l := il, r := ir }], ruleLeaves, k + 1)
+            | none => (out ++ [{ n with label := some lb' }], A, ruleLeaves, k + 1))
+         | none => (out ++ [n], A, ruleLeaves, k + 1))
+      | _, _ => (out ++ [n], A, ruleLeaves, k + 1)
+    let (nodes, A, ruleLeaves, _) := (nodes0.zip named).foldl step ([], A0, [], 0)
     -- node by node with the small pool, the larger pool only for nodes the small one does not settle
-    let rec go (i : Nat) (slow : Nat) (rest : List PNode) : Option (Nat × Bool) × Nat :=
+    let rec go (i : Nat) (slow rlOk rlUnd : Nat) (rest : List PNode) : Option (Nat × Bool) × Nat × Nat × Nat :=
       match rest with
-      | [] => (none, slow)
+      | [] => (none, slow, rlOk, rlUnd)
       | n :: rest =>
-        if checkNode (proofHeur false 4) A nodes i n then go (i + 1) slow rest
-        else if checkNode (proofHeur true 3) A nodes i n || checkNode (proofHeur true 5) A nodes i n then go (i + 1) (slow + 1) rest
+        let isRl := ruleLeaves.contains i
+        if checkNode (proofHeur false 4) A nodes i n then go (i + 1) slow (if isRl then rlOk + 1 else rlOk) rlUnd rest
+        else if checkNode (proofHeur true 3) A nodes i n || checkNode (proofHeur true 5) A nodes i n then
+          go (i + 1) (slow + 1) (if isRl then rlOk + 1 else rlOk) rlUnd rest
+        else if isRl then (some (i, true), slow, rlOk, rlUnd + 1)
         else
           let E := if n.rule == .explicit then leafEqs A n else premiseEqs nodes n
-          (some (i, (uniCore true 5 E n.l n.r).truncated), slow)
-    let (res, slow) := go 0 0 nodes
+          (some (i, (uniCore true 5 E n.l n.r).truncated), slow, rlOk, rlUnd)
+    let (res, slow, rlOk, rlUnd) := go 0 0 0 0 nodes
     let nodesVerdict := match res with
       | none => "ok"
       | some (i, true) => s!"und{i}"
@@ -216,7 +296,7 @@ def explRun (body : String) : String :=
         | some root => if Orc.instOf root.l root.r t u then "1" else "0"
         | none => "0"
       | _ => "0"
-    s!"nodes:{nodesVerdict}|roots:{String.join roots}|slow:{slow}"
+    s!"nodes:{nodesVerdict}|roots:{String.join roots}|slow:{slow}|rl:{rlOk}/{rlUnd}"
   | _ => "bad-case"
 
 end SV.Drv
